@@ -6,12 +6,16 @@ package vh
 // AttackContract; no time is asserted, only the order of the log.
 
 import (
+	"bytes"
 	"fmt"
+	"io"
+	"net/http"
 	"path/filepath"
 	"runtime"
 	"sync"
 	"sync/atomic"
 	"testing"
+	"time"
 
 	vegeta "github.com/tsenart/vegeta/v12/lib"
 )
@@ -50,5 +54,71 @@ func TestDrv_StopStress(t *testing.T) {
 		}(s)
 	}
 	wg.Wait()
-	writeJSON(filepath.Join(dir, "stop.summary.json"), KV{"attackers": n, "callers": callers})
+	// Stop aimed at the moment the pool grows: tiny attacks that start without a worker (the first tick makes the loop start
+	// one), stopped at once from another goroutine.  Whatever the interleaving, the results channel is closed in the end.
+	grow := n
+	var wedged atomic.Int64
+	for s := 0; s < P; s++ {
+		wg.Add(1)
+		go func(s int) {
+			defer wg.Done()
+			tr := NewTracer(filepath.Join(dir, fmt.Sprintf("stop_grow_%02d.ndjson", s)))
+			defer tr.Close()
+			rt := roundTripFunc(func(req *http.Request) (*http.Response, error) {
+				return &http.Response{Status: "200 OK", StatusCode: 200, Proto: "HTTP/1.1", ProtoMajor: 1, ProtoMinor: 1, Header: http.Header{},
+					Body: io.NopCloser(bytes.NewReader(nil)), Request: req}, nil
+			})
+			tgt := vegeta.NewStaticTargeter(vegeta.Target{Method: "GET", URL: "http://verif.invalid/"})
+			for i := s; i < grow; i += P {
+				atk := vegeta.NewAttacker(vegeta.Client(&http.Client{Transport: rt}), vegeta.Workers(0))
+				tr.Emit("Reset", KV{"id": n + i, "workers": 0, "maxw": -1, "du": 0, "name": "", "script": "stop-while-the-pool-grows"})
+				results := atk.Attack(tgt, firstThenSlowly{}, 0, "") // ends only by the Stop below
+				stopped := make(chan struct{})
+				go func(spin int) {
+					defer close(stopped)
+					for k := 0; k < spin; k++ {
+						runtime.Gosched()
+					}
+					tr.Emit("StopCall", KV{"t": 0, "id": 1})
+					ret := atk.Stop()
+					tr.Emit("StopRet", KV{"t": 0, "id": 1, "ret": ret})
+				}(i % 4)
+				closed := false
+				deadline := time.After(5 * time.Second)
+			drain:
+				for {
+					select {
+					case _, ok := <-results:
+						if !ok {
+							closed = true
+							break drain
+						}
+					case <-deadline:
+						break drain
+					}
+				}
+				<-stopped
+				if closed {
+					tr.Emit("Try", KV{"t": 0})
+					tr.Emit("Closed", KV{"t": 0})
+				} else {
+					wedged.Add(1)
+					tr.Emit("Horizon", KV{"t": 0})
+				}
+			}
+		}(s)
+	}
+	wg.Wait()
+	writeJSON(filepath.Join(dir, "stop.summary.json"), KV{"attackers": n, "callers": callers, "stopped_while_growing": grow, "wedged": wedged.Load()})
 }
+
+// firstThenSlowly releases the first hit at once and one per millisecond afterwards, for ever.
+type firstThenSlowly struct{}
+
+func (firstThenSlowly) Pace(_ time.Duration, hits uint64) (time.Duration, bool) {
+	if hits == 0 {
+		return 0, false
+	}
+	return time.Millisecond, false
+}
+func (firstThenSlowly) Rate(time.Duration) float64 { return 1000 }
